@@ -36,12 +36,26 @@ def clean(out):
 
 
 def run(cmd, timeout=1800, cwd=None, env=None, input=None):
+    """run a command; on timeout the whole process group is killed and (124, output so far) is returned"""
     e = dict(ENV)
     if env:
         e.update(env)
-    p = subprocess.run(cmd, cwd=cwd, env=e, input=input, stdout=subprocess.PIPE, stderr=subprocess.STDOUT,
-                       timeout=timeout, text=True, shell=isinstance(cmd, str))
-    return p.returncode, clean(p.stdout)
+    p = subprocess.Popen(cmd, cwd=cwd, env=e, stdin=subprocess.PIPE if input is not None else subprocess.DEVNULL,
+                         stdout=subprocess.PIPE, stderr=subprocess.STDOUT, text=True, shell=isinstance(cmd, str),
+                         start_new_session=True)
+    try:
+        out, _ = p.communicate(input=input, timeout=timeout)
+        return p.returncode, clean(out)
+    except subprocess.TimeoutExpired:
+        try:
+            os.killpg(p.pid, 9)
+        except Exception:
+            p.kill()
+        try:
+            out, _ = p.communicate(timeout=30)
+        except Exception:
+            out = ""
+        return 124, clean(out or "") + "\n[timeout after %ss: %s]" % (timeout, cmd if isinstance(cmd, str) else " ".join(cmd))
 
 
 class Lock:
@@ -165,6 +179,8 @@ def coq_prepare():
             os.remove(dep)
 
 
+COQC_FILE_TIMEOUT = 900
+
 ALLOWED_AXIOMS = {
     # standard-library axioms only; none is declared by this development
     "functional_extensionality_dep",
@@ -184,7 +200,8 @@ def coq_make(targets, timeout=1500):
     with Lock("coq"):
         coq_prepare()
         t0 = time.time()
-        rc, out = run(["make", "-j16", "-k"] + targets, cwd=COQ, timeout=timeout)
+        # every single coqc is bounded too, so that one diverging file cannot stall the others for the whole time limit
+        rc, out = run(["make", "-j16", "-k", "COQC=timeout -k 10 %d coqc" % COQC_FILE_TIMEOUT] + targets, cwd=COQ, timeout=timeout)
         log("coq make %s: rc=%d in %.1fs" % (" ".join(targets), rc, time.time() - t0))
         return rc, out
 
